@@ -200,6 +200,18 @@ PLUGS = {
     'C11': dict(streams=lambda seed, tier: union_stream(seed, sizes(tier, 1200, 20000)) +
                 union_stream(seed + 7, sizes(tier, 300, 5000), op='roundtrip'),
                 project=proj_verdict_value, oracles=['c11'], disagreement_is_failure=True),
+    'C12': dict(streams=lambda seed, tier: gen.scenarios_tagged(seed, sizes(tier, 1500, 25000)),
+                project=proj_full, oracles=[], disagreement_is_failure=True),
+    'C13': dict(streams=lambda seed, tier: gen.scenarios_cond(seed, sizes(tier, 2000, 30000)),
+                project=proj_full, oracles=[], disagreement_is_failure=True),
+    'C14': dict(streams=lambda seed, tier: gen.scenarios_construct(seed, sizes(tier, 1500, 25000)),
+                project=proj_full, oracles=['c14'], disagreement_is_failure=True),
+    'C15': dict(streams=lambda seed, tier: gen.scenarios_process(seed, sizes(tier, 800, 12000), generic_share=0.0) +
+                [s for s in conv_stream(seed, sizes(tier, 3000, 40000), 'from_data', []) if '"cls"' in json.dumps(s['ty'])] +
+                [s for s in conv_stream(seed + 5, sizes(tier, 1500, 20000), 'roundtrip', []) if '"cls"' in json.dumps(s['ty'])],
+                project=proj_full, oracles=[], disagreement_is_failure=True),
+    'C17': dict(streams=lambda seed, tier: gen.scenarios_process(seed, sizes(tier, 1500, 25000), generic_share=0.7),
+                project=proj_full, oracles=[], disagreement_is_failure=True),
     'C20': dict(streams=lambda seed, tier: rename_stream(seed, tier), project=proj_full, oracles=[], disagreement_is_failure=True,
                 post_oracle=rename_oracle),
 }
